@@ -1,5 +1,7 @@
 package rtree
 
+import "math"
+
 // Box is an axis-aligned bounding box.
 type Box struct {
 	MinX, MinY, MaxX, MaxY float64
@@ -34,4 +36,14 @@ func squaredEuclideanDistance(b1, b2 Box) float64 {
 	dx := fastMax(0, fastMax(b1.MinX-b2.MaxX, b2.MinX-b1.MaxX))
 	dy := fastMax(0, fastMax(b1.MinY-b2.MaxY, b2.MinY-b1.MaxY))
 	return dx*dx + dy*dy
+}
+
+// euclideanDistance is the distance between two boxes (zero if they share a
+// point). Unlike squaredEuclideanDistance it neither overflows to +Inf nor
+// underflows to zero for distances that are themselves representable, so it
+// orders boxes correctly at any coordinate magnitude.
+func euclideanDistance(b1, b2 Box) float64 {
+	dx := fastMax(0, fastMax(b1.MinX-b2.MaxX, b2.MinX-b1.MaxX))
+	dy := fastMax(0, fastMax(b1.MinY-b2.MaxY, b2.MinY-b1.MaxY))
+	return math.Hypot(dx, dy)
 }
